@@ -192,7 +192,99 @@ Section RunnerP.
     cbn [flat_map frame_of f_buf]. destruct N; [rewrite Nat.mod_0_l in E by exact k_pos; discriminate|].
     cbn. rewrite app_nil_r. reflexivity.
   Qed.
+  (* ---------- C05: Solution.times are the times of the recorded frames ---------- *)
+  Lemma T_S a : tadd (T a) (D (S a)) = T (S a).
+  Proof. unfold T, D. rewrite traj_S. reflexivity. Qed.
+
+  Lemma cumsum_traj : forall n a,
+    cumsum Tm tadd (T a) (map (fun j => D (S j)) (seq a n)) = map T (seq (S a) n).
+  Proof.
+    induction n as [|n IH]; intros a; [reflexivity|].
+    cbn [seq map cumsum]. rewrite T_S, IH. reflexivity.
+  Qed.
+
+  Lemma every_kth_filter : forall n a j, j < k -> (a + j) mod k = 0 ->
+    every_kth Tm k j (map T (seq a n)) = map T (filter (fun i => Nat.eqb (i mod k) 0) (seq a n)).
+  Proof.
+    induction n as [|n IH]; intros a j Hj Hm; [reflexivity|].
+    cbn [seq map every_kth filter]. destruct j as [|j'].
+    - rewrite Nat.add_0_r in Hm. rewrite Hm. cbn [Nat.eqb map]. f_equal.
+      apply IH; [lia|]. replace (S a + (k - 1)) with (a + 1 * k) by lia.
+      rewrite Nat.mod_add by exact k_pos. exact Hm.
+    - cbn [Nat.eqb]. destruct (Nat.eqb (a mod k) 0) eqn:E.
+      + exfalso. apply Nat.eqb_eq in E.
+        rewrite Nat.add_mod in Hm by exact k_pos. rewrite E in Hm. cbn [plus] in Hm.
+        rewrite Nat.mod_mod in Hm by exact k_pos. rewrite Nat.mod_small in Hm by exact Hj. discriminate.
+      + replace (S j' - 1) with j' by lia. apply IH; [lia|].
+        replace (S a + j') with (a + S j') by lia. exact Hm.
+  Qed.
+
+  Lemma spec_times : forall n a,
+    map (f_time Tm St Rec) (spec_frames a n) = map T (filter (fun j => Nat.eqb (j mod k) 0) (seq a n)).
+  Proof.
+    induction n as [|n IH]; intros a; [reflexivity|].
+    unfold spec_frames in *. cbn [seq flat_map filter]. rewrite map_app, IH.
+    destruct (Nat.eqb (a mod k) 0); reflexivity.
+  Qed.
+
+  (* the reader's time axis, computed from the per-step dt values alone (0 :: cumsum dt, every k-th and the last),
+     is exactly the list of times stored in the frames, frame by frame *)
+  Theorem times_are_frame_times N :
+    solution_times Tm t0 tadd k (map (fun j => D (S j)) (seq 0 N)) = map (f_time Tm St Rec) (run_frames N).
+  Proof.
+    unfold solution_times, run_frames. cbv zeta. rewrite map_length, seq_length.
+    assert (E : t0 :: cumsum Tm tadd t0 (map (fun j => D (S j)) (seq 0 N)) = map T (seq 0 (S N))).
+    { change (cumsum Tm tadd t0) with (cumsum Tm tadd (T 0)). rewrite cumsum_traj. reflexivity. }
+    rewrite !E. clear E.
+    rewrite every_kth_filter; [|lia|rewrite Nat.add_0_r; apply Nat.mod_0_l; exact k_pos].
+    rewrite map_app, spec_times.
+    destruct (Nat.eqb (N mod k) 0); [rewrite app_nil_r; reflexivity|].
+    f_equal. rewrite seq_S, map_app. cbn [map plus]. rewrite last_last. reflexivity.
+  Qed.
+
+  (* ... and the same from the records actually read back from the file, when the update records the dt it used *)
+  Theorem times_from_records (rec_dt : Rec -> Tm) N :
+    (forall i t d v, rec_dt (snd (updf i t d v)) = fst (fst (updf i t d v))) ->
+    solution_times Tm t0 tadd k (map rec_dt (read_records Tm St Rec (run_frames N)))
+    = map (f_time Tm St Rec) (run_frames N).
+  Proof.
+    intros Hr. rewrite records_once_in_order, map_map, <- times_are_frame_times. f_equal.
+    apply map_ext. intros j. unfold recd. rewrite Hr. unfold D. rewrite traj_S. reflexivity.
+  Qed.
 End RunnerP.
+
+(* ---------- C05: the thermalisation stage leaves no trace in the recorded frames ---------- *)
+Section Thermal.
+  Variable Tm : Type.
+  Variable t0 : Tm.
+  Variable tadd : Tm -> Tm -> Tm.
+  Variable tleb : Tm -> Tm -> bool.
+  Variable St Rec : Type.
+  Variable updf : nat -> Tm -> Tm -> St -> Tm * St * Rec.
+  Variable k : nat.
+  Hypothesis k_pos : k <> 0.
+
+  (* Runner.run with skip_time: the thermalisation stage runs M updates (never saved), then step and time restart at
+     0 and the recorded frames are exactly those of an un-thermalised run started from the thermalised values and
+     time step: no frame, record or time offset of the first stage survives *)
+  Theorem thermalisation_unrecorded (sk solve_time dt0 : Tm) (v0 : St) (M N fuel : nat) :
+    (forall j, j < M -> tleb sk (T Tm t0 tadd St Rec updf dt0 v0 j) = false) ->
+    tleb sk (T Tm t0 tadd St Rec updf dt0 v0 M) = true -> M < fuel ->
+    let dt1 := D Tm t0 tadd St Rec updf dt0 v0 M in
+    let v1 := V Tm t0 tadd St Rec updf dt0 v0 M in
+    (forall j, j < N -> tleb solve_time (T Tm t0 tadd St Rec updf dt1 v1 j) = false) ->
+    tleb solve_time (T Tm t0 tadd St Rec updf dt1 v1 N) = true -> N < fuel ->
+    let res := run Tm t0 tadd tleb St Rec (upd_ok Tm St Rec updf) k true fuel (Some sk) solve_time dt0 v0 in
+    fst res = Finished /\ r_frames _ _ _ (snd res) = run_frames Tm t0 tadd St Rec updf k dt1 v1 N.
+  Proof.
+    intros H1 H2 H3 dt1 v1 H4 H5 H6 res. unfold res, run.
+    change (mkR Tm St Rec t0 dt0 v0 [] []) with (canon Tm t0 tadd St Rec updf k dt0 v0 0 []).
+    erewrite stage_spec with (m := M) (i := 0) (F := []); try eassumption;
+      [|intros j Hj; apply H1; lia].
+    unfold final_save. cbn [andb plus r_dt r_vals r_frames app].
+    apply run_frames_correct; assumption.
+  Qed.
+End Thermal.
 
 (* ---------- the loop as found (stop test after the update) violates frame_content ---------- *)
 Definition cnt_upd : nat -> Z -> Z -> nat -> outcome Z nat Z :=
